@@ -1,6 +1,7 @@
 #![allow(dead_code)]
 //! vh — verification harness: generates cases, runs the real engeom code, prints one line per
 //! case:  op | inputs for the Lean model | implementation result | oracle verdict
+mod probe;
 mod util;
 mod c01;
 mod c02;
@@ -14,6 +15,7 @@ mod c11;
 mod c12;
 mod curves;
 mod c14;
+mod c15;
 mod c16;
 mod c17;
 mod c18;
@@ -32,6 +34,10 @@ fn main() {
     let n: usize = args[3].parse().expect("n");
     std::panic::set_hook(Box::new(|_| {}));
     let mut rng = Rng::new(seed ^ (prop.bytes().fold(0u64, |a, b| a.wrapping_mul(131).wrapping_add(b as u64))));
+    if prop == "PROBE" {
+        probe::run();
+        return;
+    }
     match prop {
         "C01" => c01::run(&mut rng, n),
         "C02" => c02::run(&mut rng, n, args.iter().any(|a| a == "--thorough")),
@@ -48,6 +54,7 @@ fn main() {
             c12::run(&mut rng, n, slice % 16, 16, thorough)
         }
         "C14" => c14::run(&mut rng, n, args.iter().any(|a| a == "--thorough")),
+        "C15" => c15::run(&mut rng, n),
         "C16" => c16::run(&mut rng, n),
         "C17" => c17::run(&mut rng, n),
         "C18" => c18::run(&mut rng, n),
